@@ -30,14 +30,21 @@ def lin_cases(draw, tier="quick", nmin=1):
     c = {"m": m, "n": n, "U": draw(gen.mat(m, m, -1, 1)), "V": draw(gen.mat(n, n, -1, 1)),
          "s": draw(st.lists(gen.fl(1.0, 10.0), min_size=r, max_size=r)),
          "b": draw(gen.vec(m)), "x0": draw(st.one_of(st.just([0.0] * n), gen.vec(n))),
-         "form": draw(st.sampled_from(["matrix", "sparse", "function"]))}
+         "form": draw(st.sampled_from(["matrix", "sparse", "function"])),
+         # memory layout of the arrays handed to the solver (operator matrix, right-hand side, start vector)
+         "layout": draw(st.sampled_from(gen.LAYOUTS))}
     return c
 
 
 def build_A(c):
     U, V = orth(c["U"]), orth(c["V"])
     r = min(c["m"], c["n"])
-    return U[:, :r] @ np.diag(c["s"]) @ V[:, :r].T
+    return gen.relayout(U[:, :r] @ np.diag(c["s"]) @ V[:, :r].T, c.get("layout", "plain"))
+
+
+def V(c, key):
+    """a vector argument of the case in the case's memory layout"""
+    return gen.relayout(A(c[key]), c.get("layout", "plain"))
 
 
 @st.composite
@@ -68,7 +75,7 @@ def run_cgls(c, rec):
     import cuqi
     Am = build_A(c)
     m, n = Am.shape
-    b, x0, s = A(c["b"]), A(c["x0"]), c["shift"]
+    b, x0, s = V(c, "b"), V(c, "x0"), c["shift"]
     tags = {"solver": "CGLS", "form": c["form"], "shape": "over" if m > n else ("under" if m < n else "square"),
             "shift": s > 0}
     if rec.classify(tags, (m != n or np.any(x0 != 0)) and s > 0 or (m != n and np.any(x0 != 0))):
@@ -116,7 +123,7 @@ def run_pcgls(c, rec):
     import scipy.sparse as sp
     Am = build_A(c)
     m, n = Am.shape
-    b, x0 = A(c["b"]), A(c["x0"])
+    b, x0 = V(c, "b"), V(c, "x0")
     if c["Pkind"] == "identity":
         P = np.eye(n)
     elif c["Pkind"] == "diag":
@@ -206,7 +213,7 @@ def run_fista(c, rec):
     import cuqi
     Am = build_A(c)
     m, n = Am.shape
-    b, x0 = A(c["b"]), A(c["x0"])
+    b, x0 = V(c, "b"), V(c, "x0")
     if c.get("x0_dtype") == "int":
         x0 = np.round(x0).astype(int)        # a start vector written with integers
     elif c.get("x0_dtype") == "float32":
@@ -272,7 +279,7 @@ def run_lm(c, rec):
     import scipy.sparse as sp
     B = build_A(c)
     m, n = B.shape
-    cc, y, x0 = c["cc"], A(c["y"]), A(c["x0"])
+    cc, y, x0 = c["cc"], A(c["y"]), V(c, "x0")
     Pad = np.zeros((m, n))
     Pad[:n, :n] = np.eye(n)
 
@@ -325,7 +332,7 @@ def run_wrap(c, rec):
     import scipy.optimize as opt
     n = c["n"]
     H = gen.spd_from(c["G"], 0.5)
-    a, q, x0 = A(c["a"]), c["q"], A(c["x0"])
+    a, q, x0 = A(c["a"]), c["q"], V(c, "x0")
     f = lambda x: float(0.5 * (x - a) @ H @ (x - a) + q * np.sum((x - a) ** 4))
     g = lambda x: H @ (x - a) + 4 * q * (x - a) ** 3
     tags = {"wrapper": c["which"], "method": str(c["method"]) if c["which"] in ("minimize", "maximize") else "-",
